@@ -35,7 +35,7 @@ type c07Fake struct {
 	emit, keys byte
 	valLen     int
 	segSize    uint64
-	graph      int // 0: stages [m1|s1] [idx|m2|out]; 1: a second store s2 (reads s1) in a stage of its own, out reads s2; 2: as 0 with s1 filtered on idx too; 3: as 0 with an append-policy s1; 4: as 0 with out reading s1 in deltas mode and s1 logging a no-op delete_prefix on blocks without input; 5: as 0 with a sparse out (reads s1 and m2 only); 6: as 0 with m2 filtered on "a && b", b never emitted
+	graph      int // 0: stages [m1|s1] [idx|m2|out]; 1: a second store s2 (reads s1) in a stage of its own, out reads s2; 2: as 0 with s1 filtered on idx too; 3: as 0 with an append-policy s1; 4: as 0 with out reading s1 in deltas mode and s1 logging a no-op delete_prefix on blocks without input; 5: as 0 with a sparse out (reads s1 and m2 only); 6: as 0 with m2 filtered on "a && b", b never emitted; 7: as 0 with out starting at block 1
 	vals, wals []byte
 }
 
@@ -268,13 +268,18 @@ func c07Modules(graph int) *pbsubstreams.Modules {
 		// ... and the other module filtered on the same key starts inside the first segment
 		m2.InitialBlock = 1
 	}
+	out := mapper("out", outInputs...)
+	if graph == 7 {
+		// the output module starts inside the first segment, after the store has been written
+		out.InitialBlock = 1
+	}
 	return &pbsubstreams.Modules{
 		Modules: []*pbsubstreams.Module{
 			{Name: "idx", BinaryEntrypoint: "idx", Inputs: []*pbsubstreams.Module_Input{src}, Kind: &pbsubstreams.Module_KindBlockIndex_{KindBlockIndex: &pbsubstreams.Module_KindBlockIndex{OutputType: "proto:sf.substreams.index.v1.Keys"}}, Output: &pbsubstreams.Module_Output{Type: "proto:sf.substreams.index.v1.Keys"}},
 			mapper("m1", src),
 			m2,
 			s1,
-			mapper("out", outInputs...),
+			out,
 		},
 		Binaries: []*pbsubstreams.Binary{{Type: "wasm/rust-v1", Content: []byte{1}}},
 	}
